@@ -199,14 +199,17 @@ impl<'de> Deserialize<'de> for TaxPeriod {
             .parse()
             .map_err(|_| serde::de::Error::custom(format!("invalid end year: '{}'", parts[1])))?;
 
-        let expected_end = (start + 1) % 100;
+        // Range-check first: `start + 1` must not be computed on an arbitrary u16
+        // (65535 would overflow in builds with overflow checks).
+        let period = TaxPeriod::new(start).map_err(serde::de::Error::custom)?;
+        let expected_end = period.end_year() % 100;
         if end_short != expected_end {
             return Err(serde::de::Error::custom(format!(
                 "tax years must be consecutive: '{s}' should end with '{expected_end:02}', not '{end_short:02}'"
             )));
         }
 
-        TaxPeriod::new(start).map_err(serde::de::Error::custom)
+        Ok(period)
     }
 }
 
